@@ -2321,7 +2321,12 @@ static srtp_err_status_t srtp_unprotect_aead(srtp_ctx_t *ctx,
         return srtp_err_status_cryptex_err;
     }
 
-    if (enc_start > srtp_len - tag_len - stream->mki_size) {
+    /*
+     * the unencrypted part of the header (with cryptex in place, enc_start
+     * has been moved back over the CSRC list) must end before the trailer
+     */
+    if (enc_start + (cryptex_inplace ? hdr->cc * 4u : 0u) >
+        srtp_len - tag_len - stream->mki_size) {
         return srtp_err_status_parse_err;
     }
 
@@ -2965,7 +2970,12 @@ srtp_err_status_t srtp_unprotect(srtp_t ctx,
         return status;
     }
 
-    if (enc_start > srtp_len - tag_len - stream->mki_size) {
+    /*
+     * the unencrypted part of the header (with cryptex in place, enc_start
+     * has been moved back over the CSRC list) must end before the trailer
+     */
+    if (enc_start + (cryptex_inplace ? hdr->cc * 4u : 0u) >
+        srtp_len - tag_len - stream->mki_size) {
         return srtp_err_status_parse_err;
     }
     enc_octet_len = srtp_len - enc_start - stream->mki_size - tag_len;
